@@ -81,8 +81,9 @@ func zlist(sb *strings.Builder, n int, at func(i int) int64) {
 
 // coq prints the proto as a Gallina term of type `proto` (VM/Proto.v).
 func (p *P) coq(sb *strings.Builder) {
-	sb.WriteString("(Proto ")
+	sb.WriteString("(Proto (z63 ")
 	zlist(sb, len(p.Code), func(i int) int64 { return int64(p.Code[i]) })
+	sb.WriteString("%uint63)")
 	sb.WriteByte(' ')
 	zlist(sb, len(p.Kinds), func(i int) int64 { return int64(p.Kinds[i]) })
 	sb.WriteByte(' ')
